@@ -387,7 +387,9 @@ theorem resolve_spec (env : Env) (name : List Char) :
     (∀ f, env.custom name = some f → resolve env name = some f) ∧
     (∀ b, env.custom name = none → Builtins.isRegistered (String.ofList name) = true →
       Builtins.model? (String.ofList name) = some b →
-      resolve env name = some (fun a => match b a with | .ok v => .ok v | .error e => .error (.xl e))) ∧
+      resolve env name = some (fun a => match b a with
+        | .ok v => if isNoOpinion v then .error .unmodelled else .ok v
+        | .error e => .error (.xl e))) ∧
     (∀ args log, callFunction env name args log =
       match resolve env name with
       | none => (.error (.xl .name), log)
@@ -427,8 +429,9 @@ theorem call_outcome_value (env : Env) (name : List Char) (kind : SeqKind) (a b 
 theorem traps_see_values (env : Env) (x y : Expr) (e : Err) (w : Value)
     (hx : outcome env x = .ok (.err e)) (hy : outcome env y = .ok w)
     (hs : ∀ n ∈ trapNames, env.custom n = none) :
-    outcome env (.call "IFERROR".toList .flat [x, y] []) = .ok w ∧
-    outcome env (.call "IFNA".toList .flat [x, y] []) = .ok (if e = .na then w else .err e) ∧
+    (isNoOpinion w = false → outcome env (.call "IFERROR".toList .flat [x, y] []) = .ok w) ∧
+    (isNoOpinion (if e = .na then w else .err e) = false →
+      outcome env (.call "IFNA".toList .flat [x, y] []) = .ok (if e = .na then w else .err e)) ∧
     outcome env (.call "ISERROR".toList .flat [x] []) = .ok (.bool true) ∧
     outcome env (.call "ISERR".toList .flat [x] []) = .ok (.bool (decide (e ≠ .na))) ∧
     outcome env (.call "ISNA".toList .flat [x] []) = .ok (.bool (decide (e = .na))) ∧
@@ -436,34 +439,44 @@ theorem traps_see_values (env : Env) (x y : Expr) (e : Err) (w : Value)
   have h1 := outcomes_one hx
   have h2 := outcomes_two hx hy
   refine ⟨?_, ?_, ?_, ?_, ?_, ?_⟩
-  · rw [outcome_builtin_call (b := IFERROR) (hs _ (by decide)) (by decide) (by rfl) h2]; rfl
-  · rw [outcome_builtin_call (b := IFNA) (hs _ (by decide)) (by decide) (by rfl) h2]
+  · intro hw
+    rw [outcome_builtin_call (b := IFERROR) (hs _ (by decide)) (by decide) (by rfl) h2 hw]; rfl
+  · intro hw
+    rw [outcome_builtin_call (b := IFNA) (hs _ (by decide)) (by decide) (by rfl) h2 (by cases e <;> exact hw)]
     cases e <;> rfl
-  · rw [outcome_builtin_call (b := ISERROR) (hs _ (by decide)) (by decide) (by rfl) h1]; rfl
-  · rw [outcome_builtin_call (b := ISERR) (hs _ (by decide)) (by decide) (by rfl) h1]
+  · rw [outcome_builtin_call (b := ISERROR) (hs _ (by decide)) (by decide) (by rfl) h1 rfl]; rfl
+  · rw [outcome_builtin_call (b := ISERR) (hs _ (by decide)) (by decide) (by rfl) h1 (by cases e <;> rfl)]
     cases e <;> rfl
-  · rw [outcome_builtin_call (b := ISNA) (hs _ (by decide)) (by decide) (by rfl) h1]
+  · rw [outcome_builtin_call (b := ISNA) (hs _ (by decide)) (by decide) (by rfl) h1 (by cases e <;> rfl)]
     cases e <;> rfl
-  · rw [outcome_builtin_call (b := ERROR_TYPE) (hs _ (by decide)) (by decide) (by rfl) h1, error_type_spec]
+  · rw [outcome_builtin_call (b := ERROR_TYPE) (hs _ (by decide)) (by decide) (by rfl) h1
+      (by rw [error_type_spec]; cases e <;> rfl), error_type_spec]
 
 /-- on an expression that evaluates to a value that is not an error the traps let it through:
     IFERROR / IFNA give the value itself, ISERROR / ISERR / ISNA are FALSE -/
 theorem traps_pass_values (env : Env) (x y : Expr) (v w : Value)
     (hx : outcome env x = .ok v) (hv : isErr v = none) (hy : outcome env y = .ok w)
     (hs : ∀ n ∈ trapNames, env.custom n = none) :
-    outcome env (.call "IFERROR".toList .flat [x, y] []) = .ok v ∧
-    outcome env (.call "IFNA".toList .flat [x, y] []) = .ok v ∧
+    (isNoOpinion v = false → outcome env (.call "IFERROR".toList .flat [x, y] []) = .ok v) ∧
+    (isNoOpinion v = false → outcome env (.call "IFNA".toList .flat [x, y] []) = .ok v) ∧
     outcome env (.call "ISERROR".toList .flat [x] []) = .ok (.bool false) ∧
     outcome env (.call "ISERR".toList .flat [x] []) = .ok (.bool false) ∧
     outcome env (.call "ISNA".toList .flat [x] []) = .ok (.bool false) := by
   have h1 := outcomes_one hx
   have h2 := outcomes_two hx hy
   refine ⟨?_, ?_, ?_, ?_, ?_⟩
-  · rw [outcome_builtin_call (b := IFERROR) (hs _ (by decide)) (by decide) (by rfl) h2, iferror_spec, hv]
-  · rw [outcome_builtin_call (b := IFNA) (hs _ (by decide)) (by decide) (by rfl) h2, ifna_spec, hv]; rfl
-  · rw [outcome_builtin_call (b := ISERROR) (hs _ (by decide)) (by decide) (by rfl) h1, iserror_spec, hv]; rfl
-  · rw [outcome_builtin_call (b := ISERR) (hs _ (by decide)) (by decide) (by rfl) h1, iserr_spec, hv]; rfl
-  · rw [outcome_builtin_call (b := ISNA) (hs _ (by decide)) (by decide) (by rfl) h1, isna_spec, hv]; rfl
+  · intro hno
+    rw [outcome_builtin_call (b := IFERROR) (hs _ (by decide)) (by decide) (by rfl) h2
+      (by rw [iferror_spec, hv]; exact hno), iferror_spec, hv]
+  · intro hno
+    rw [outcome_builtin_call (b := IFNA) (hs _ (by decide)) (by decide) (by rfl) h2
+      (by rw [ifna_spec, hv]; exact hno), ifna_spec, hv]; rfl
+  · rw [outcome_builtin_call (b := ISERROR) (hs _ (by decide)) (by decide) (by rfl) h1
+      (by rw [iserror_spec]; rfl), iserror_spec, hv]; rfl
+  · rw [outcome_builtin_call (b := ISERR) (hs _ (by decide)) (by decide) (by rfl) h1
+      (by rw [iserr_spec]; rfl), iserr_spec, hv]; rfl
+  · rw [outcome_builtin_call (b := ISNA) (hs _ (by decide)) (by decide) (by rfl) h1
+      (by rw [isna_spec]; rfl), isna_spec, hv]; rfl
 
 /-- THE KEY CASE: the trapped expression is a function call whose body RETURNS an error or RAISES
     one (a custom host function or a registered builtin; e.g. `SUM(1/0)`, whose `inumbers` raises the
@@ -474,8 +487,10 @@ theorem traps_see_calls (env : Env) (name : List Char) (kind : SeqKind) (a b : L
     (hf : resolve env name = some f) (he : yieldsErr (f (seqValues kind av bv)) = some e)
     (hy : outcome env y = .ok w) (hs : ∀ n ∈ trapNames, env.custom n = none) :
     outcome env (.call name kind a b) = .ok (.err e) ∧
-    outcome env (.call "IFERROR".toList .flat [.call name kind a b, y] []) = .ok w ∧
-    outcome env (.call "IFNA".toList .flat [.call name kind a b, y] []) = .ok (if e = .na then w else .err e) ∧
+    (isNoOpinion w = false →
+      outcome env (.call "IFERROR".toList .flat [.call name kind a b, y] []) = .ok w) ∧
+    (isNoOpinion (if e = .na then w else .err e) = false →
+      outcome env (.call "IFNA".toList .flat [.call name kind a b, y] []) = .ok (if e = .na then w else .err e)) ∧
     outcome env (.call "ISERROR".toList .flat [.call name kind a b] []) = .ok (.bool true) ∧
     outcome env (.call "ISERR".toList .flat [.call name kind a b] []) = .ok (.bool (decide (e ≠ .na))) ∧
     outcome env (.call "ISNA".toList .flat [.call name kind a b] []) = .ok (.bool (decide (e = .na))) ∧
@@ -521,7 +536,7 @@ example :
     outcome envH (.call "ERROR.TYPE".toList .flat [.call "SUM".toList .flat [oneByZero] []] []) = .ok (.num (.int 2)) := by
   have h := traps_see_calls envH "SUM".toList .flat [oneByZero] [] [.err .div0] [] _ .div0 zero (.num (.int 0))
     (outcomes_one (outcome_oneByZero envH)) rfl envH_SUM rfl rfl envH_no_shadow
-  exact ⟨h.2.1, h.2.2.2.1, h.2.2.2.2.2.2⟩
+  exact ⟨h.2.1 rfl, h.2.2.2.1, h.2.2.2.2.2.2⟩
 
 /-- `IFERROR(RAISE_NUM(), 0)` = 0 and `IFERROR(PYRAISE(), 0)` = 0; `ERROR.TYPE(RAISE_NUM())` = 6;
     `PYRAISE()` itself is the VALUE `#ERROR!` -/
@@ -534,7 +549,7 @@ example :
     rfl rfl (resolve_custom (by rfl)) rfl rfl envH_no_shadow
   have h2 := traps_see_calls envH "PYRAISE".toList .empty [] [] [] [] _ .error zero (.num (.int 0))
     rfl rfl (resolve_custom (by rfl)) (by decide) rfl envH_no_shadow
-  exact ⟨h1.2.1, h1.2.2.2.2.2.2, h2.2.1, h2.1⟩
+  exact ⟨h1.2.1 rfl, h1.2.2.2.2.2.2, h2.2.1 rfl, h2.1⟩
 
 /-- `ISERROR(ID(N(SUM(1/0))))`: the error crosses three nested calls -/
 example : outcome envH (.call "ISERROR".toList .flat [wrapCalls ["ID".toList, "N".toList, "SUM".toList] oneByZero] [])
@@ -549,6 +564,14 @@ example : outcome envH (.call "ISERROR".toList .flat [wrapCalls ["ID".toList, "N
       · exact ⟨_, envH_SUM, fun _ => rfl⟩)
     (outcome_oneByZero envH)
   exact (traps_see_values envH _ zero .div0 _ h rfl envH_no_shadow).2.2.1
+
+/-- `IFERROR(1, 0)` = 1 and `IFNA(1/0, 0)` = `#DIV/0!`: the side conditions `isNoOpinion … = false` of
+    the conjuncts that return an argument hold by computation for known values -/
+example :
+    outcome envH (.call "IFERROR".toList .flat [one, zero] []) = .ok (.num (.int 1)) ∧
+    outcome envH (.call "IFNA".toList .flat [oneByZero, zero] []) = .ok (.err .div0) :=
+  ⟨(traps_pass_values envH one zero (.num (.int 1)) (.num (.int 0)) rfl rfl rfl envH_no_shadow).1 rfl,
+   (traps_see_values envH oneByZero zero .div0 (.num (.int 0)) (outcome_oneByZero envH) rfl envH_no_shadow).2.1 rfl⟩
 
 /-! whole formulas through the lexer, the parser, the evaluator and `finish` -/
 
@@ -575,7 +598,7 @@ example : (parseTop Env.empty "IFERROR(SUM(1/0),0)".toList).1 = { result := some
   have h := traps_see_calls Env.empty "SUM".toList .flat [oneByZero] [] [.err .div0] [] _ .div0 zero (.num (.int 0))
     (outcomes_one (outcome_oneByZero _)) rfl
     (resolve_builtin (b := Fn.Agg.SUM) rfl (by decide) (by rfl)) rfl rfl (fun _ _ => rfl)
-  rw [h.2.1]; rfl
+  rw [h.2.1 rfl]; rfl
 
 /-- `#N/A+1` reports `#N/A`: the literal raises -/
 example : (parseTop Env.empty "#N/A+1".toList).1 = { result := none, error := some .na } := by
